@@ -427,6 +427,13 @@ class Explorer:
             c = op["const"]
             if fr.consts and "bits" not in c and c.get("s") in fr.consts:
                 return C(fr.consts[c["s"]], c.get("ty"))      # a const generic parameter bound at the inlined call
+            if fr.tsub and "bits" not in c and isinstance(c.get("s"), str) and c["s"].startswith("<"):
+                # `<T as Trait>::CONST` with T bound: the value the implementing type gives the constant
+                mc = re.match(r"^<(\w+) as ([\w:]+)(?:<.*>)?>::(\w+)$", c["s"])
+                if mc and mc.group(1) in fr.tsub:
+                    v_ = self.assoc_const(mc.group(2), fr.tsub[mc.group(1)], mc.group(3))
+                    if v_ is not None:
+                        return C(v_, c.get("ty"))
             return self.const_val(c)
         return SYM(("op?",))
 
@@ -753,10 +760,13 @@ class Explorer:
         return SYM(self.cap(("bin", op, a, b)))
 
     # ------------------------------------------------------------ driving
-    def run(self, entry_path, setup=None):
+    def run(self, entry_path, setup=None, tsub=None):
+        """tsub: bindings of the entry function's type parameters (`{"T": "mqtt::packet::v5_0::connect::Connect"}`): the
+        generic body is explored as instantiated at those types (associated constants and trait methods resolve)."""
         fn = self.F.fn(entry_path)
         st = State()
         fr = Frame(fn, 0)
+        fr.tsub = dict(tsub) if tsub else None
         self.init_args(st, fr)
         if setup:
             setup(self, st, fr)
@@ -1136,6 +1146,18 @@ class Explorer:
             return "stop"
         fr.bb = target
         return "ok"
+
+    def assoc_const(self, trait, selfty, name):
+        """Evaluated value of `<selfty as trait>::name` from the impl facts (the impl's own value, else the trait default)."""
+        for im in self.F.impls_of(trait):
+            if im.get("self") == selfty:
+                v = (im.get("consts") or {}).get(name)
+                if isinstance(v, int):
+                    return v
+                tr = self.F.traits.get(trait)
+                dv = ((tr or {}).get("consts") or {}).get(name)
+                return dv if isinstance(dv, int) else None
+        return None
 
     def resolve_trait_method(self, trait, name, selfty):
         key = (trait, name, selfty)
